@@ -384,6 +384,7 @@ def run_table(chk, llb, model, base):
     assert rc == 0 and len(mo) == len(good), (rc, me[-500:], len(mo), len(good))
     ndis = 0
     hist = {}
+    deferred = []      # correspondence-only verdicts are registered last: verdicts that carry a failing input come first
     for (c, r), m in zip(good, mo):
         model_runs = (m == "Task Run")
         hist[m] = hist.get(m, 0) + 1
@@ -416,16 +417,17 @@ def run_table(chk, llb, model, base):
         if model_runs != r["executed"] or (m == "Task Skip1") != r["cannot_build"]:
             ndis += 1
             if not oracle_bad:
-                chk.violation("table-correspondence",
+                deferred.append(("table-correspondence",
                               "decision table: model (Ninja/NinjaRules.v rule_step) says %s, the tool %s the command%s; the property oracle found no failure" % (
                                   m, "executed" if r["executed"] else "did not execute", " and reported 'cannot build'" if r["cannot_build"] else ""),
-                              rp, found_input=False, broken="correspondence: Ninja.NinjaRules.rule_step / decide")
+                              rp))
     chk.cov["table_cases"] = len(cases)
     chk.cov["table_model_outcomes"] = hist
     chk.cov["table_disagreements"] = ndis
     if good:
         c, r = good[len(good) // 3]
         chk.sample(dict(kind="decision-table", case=c, model_request=r["request"], executed=r["executed"], rc=r["rc"]))
+    chk.c18_deferred = deferred
     return len(good) - ndis
 
 
@@ -1021,7 +1023,7 @@ def history(llb, d, seed, jobs, db, keep_going, with_ninja, want_clean):
                         sorted(failing & set(ran)), " AFTER writing their outputs" if op.get("late") else "", ran2, rc2), rp(dict(ran=ran2, text=txt2[-800:]))))
                     break
             wrong2 = [r for r in ran2 if r in hard]
-            if wrong2 and rc2 != 0:
+            if wrong2 and not any(c.kind == "generator" for c in w.cmds if c.name in failing):
                 findings.append(("failed-dependent-ran", "the build after a failed one (nothing edited) executed dependents %s of the failing command(s) %s" % (wrong2, sorted(failing)),
                                  rp(dict(ran=ran2, text=txt2[-800:]))))
                 break
@@ -1178,6 +1180,55 @@ def scripted(llb, base):
         out.append(("null-build-runs", "alias scenario: the immediate rebuild ran %s" % log[1][1], rpl(d, log)))
     elif "c" in log[1][1]:
         out.append(("phony-alias-input-reruns", "`build c: CAT src2 | al` (al: phony a) is executed again by an immediate rebuild", rpl(d, log, history=["build", "build"])))
+    # -- a command that fails AFTER writing its output (compile, then validate): the output is not older than the inputs.
+    #    Nothing edited: the next build must retry it, fail again, and must not run the dependent (seed C18-1)
+    M = ("rule gen\n  command = echo gen >> runlog && cp -p src out && grep -q GOOD out\nrule use\n  command = echo use >> runlog && cp -p out final\n"
+         "build out: gen src\nbuild final: use out\ndefault final\n")
+    for variant in ("db", "nodb", "j4"):
+        args = {"db": ["-j1"], "nodb": ["-j1", "--no-db"], "j4": ["-j4"]}[variant]
+        d = sandbox("failafter-" + variant, M, {"src": ("BAD v1\n", 10)})
+        log = [build(llb, d, args), build(llb, d, args)]
+        hist = ["build (gen writes out, then fails)", "build (nothing edited)"]
+        if log[0][0] == 0 or log[0][1] != ["gen"]:
+            out.append(("failure-not-reported", "fail-after-output scenario, first build: exit status %d, ran %s" % (log[0][0], log[0][1]), rpl(d, log, history=hist)))
+        elif log[1][0] == 0 or "gen" not in log[1][1]:
+            out.append(("failed-not-retried", "a command that wrote its output (cp -p: same mtime as the input) and then failed is not retried by the next build although nothing "
+                        "was edited: exit status %d, ran %s%s" % (log[1][0], log[1][1], "; the dependent was built from the failed command's output" if "use" in log[1][1] else ""),
+                        rpl(d, log, history=hist)))
+        elif "use" in log[1][1] or os.path.exists(os.path.join(d, "final")):
+            out.append(("failed-dependent-ran", "the dependent of a command that failed after writing its output was executed", rpl(d, log, history=hist)))
+        else:
+            put(os.path.join(d, "src"), "GOOD v2\n", 20)
+            log += [build(llb, d, args), build(llb, d, args)]
+            fin = open(os.path.join(d, "final")).read() if os.path.exists(os.path.join(d, "final")) else None
+            if log[2][0] != 0 or fin != "GOOD v2\n":
+                out.append(("repair-does-not-converge", "after repairing the source: exit status %d, final = %r" % (log[2][0], fin), rpl(d, log)))
+            elif variant != "nodb" and (log[3][0] != 0 or log[3][1]):
+                out.append(("null-build-runs", "fail-after-output scenario: the immediate rebuild after the repair ran %s" % log[3][1], rpl(d, log)))
+    # -- the generated-header shape: a header produced by another command, declared ORDER-ONLY (so that it exists before the
+    #    first compile) and named by the compiler's depfile; regenerating it must re-run the compile (seed C18-2).
+    #    Same with a plain source header that is declared order-only and named by the depfile.
+    for shape in ("generated", "plain", "generated-depsgcc"):
+        M = ("rule gen\n  command = echo gen >> runlog && cp -p hdr.in gen.h\nrule cc\n"
+             "  command = echo cc >> runlog && cat src.c gen.h > out.o && printf 'out.o: src.c gen.h\\n' > out.d\n  depfile = out.d\n%s"
+             "%sbuild out.o: cc src.c || gen.h\ndefault out.o\n") % ("  deps = gcc\n" if shape == "generated-depsgcc" else "",
+                                                                       "" if shape == "plain" else "build gen.h: gen hdr.in\n")
+        files = {"src.c": ("int main;\n", 10), ("gen.h" if shape == "plain" else "hdr.in"): ("#define V 1\n", 10)}
+        d = sandbox("genheader-" + shape, M, files)
+        log = [build(llb, d, ["-j1"]), build(llb, d, ["-j1"])]
+        put(os.path.join(d, "gen.h" if shape == "plain" else "hdr.in"), "#define V 22222\n", 20)
+        log.append(build(llb, d, ["-j1"]))
+        log.append(build(llb, d, ["-j1"]))
+        obj = open(os.path.join(d, "out.o")).read() if os.path.exists(os.path.join(d, "out.o")) else None
+        hist = ["build", "build", "edit %s (fresh mtime)" % ("gen.h" if shape == "plain" else "hdr.in"), "build", "build"]
+        if log[0][0] != 0 or log[1][0] != 0 or log[1][1]:
+            out.append(("null-build-runs", "generated-header scenario (%s): first builds: %s" % (shape, [(l[0], l[1]) for l in log[:2]]), rpl(d, log, history=hist)))
+        elif "cc" not in log[2][1] or obj != "int main;\n#define V 22222\n":
+            out.append(("edit-header-did-not-rerun", "a header that the manifest declares as an ORDER-ONLY input and that the depfile names was %s: the compile command was not "
+                        "re-run (ran %s), out.o = %r, a clean build gives 'int main;\\n#define V 22222\\n'" % (
+                            "edited" if shape == "plain" else "regenerated from its edited source", log[2][1], obj), rpl(d, log, history=hist)))
+        elif log[3][0] != 0 or log[3][1]:
+            out.append(("null-build-runs", "generated-header scenario (%s): the immediate rebuild ran %s" % (shape, log[3][1]), rpl(d, log, history=hist)))
     # -- restat: an upstream command that leaves its output untouched does not re-run its dependents; without restat it does
     for restat in (1, 0):
         M = ("rule MK\n  command = echo $out >> runlog; if [ ! -f $out ]; then cp $in $out; fi\n%srule CP\n  command = echo $out >> runlog; cp $in $out\n"
@@ -1291,6 +1342,8 @@ def run(chk):
     chk.count(None, n=ns)
     chk.cov["scripted_scenarios"] = ns
     ok_hist = run_histories(chk, llb, os.path.join(base, "hist"))
+    for (key, what, rpd) in getattr(chk, "c18_deferred", []):
+        chk.violation(key, what, rpd, found_input=False, broken="correspondence: Ninja.NinjaRules.rule_step / decide")
     chk.cov["traces_validated_against_impl"] = ok_table + ok_hist
     chk.notes["proved_vs_sampled"] = (
         "PROVED for all argument values (Props/Properties_C18.v over Ninja/NinjaRules.v): the command rule's decision (hash change, failed/missing/skipped "
